@@ -136,6 +136,8 @@ def run_case(case):
         spec["pong_prefix"] = rm.encode_frame(1, rm.TEXT, b"status update " * case["pong_with_data"])
     rerun = bool(case.get("rerun"))
     first = {"timeline": [[3 * I + 1, ["data", rm.encode_frame(1, rm.CLOSE, struct.pack(">H", 1000))]]], "default_pong": 0.01}
+    if case.get("full_close"):
+        spec["full_close"] = True  # the server's end of stream is a close() of its socket (later client writes meet a reset)
     sc = simpeers.Scenario(sched, net, [first, spec] if rerun else [spec])
     trace = []
     res = {}
@@ -321,6 +323,8 @@ def cases(draw):
         # an unsolicited pong is indistinguishable from an answer: not generated for peers that are meant to fall silent
         tr.append([round(max(0.01, k * I + off), 4), draw(st.sampled_from(["data", "data", "ping", "pong"] if mode != "silent" else ["data", "data", "ping"]))])
     c["traffic"] = sorted(tr)
+    if draw(st.integers(0, 2)) == 0:
+        c["full_close"] = True
     if draw(st.booleans()):
         c["choices"] = draw(st.lists(st.integers(0, 2), max_size=30))
     if draw(st.integers(0, 3)) == 0:
@@ -380,6 +384,9 @@ def run_job(job, coll):
         for idx, p in enumerate(pts):
             if idx % job["of"] == job["shard"]:
                 coll.check(dict(base, preempt={str(p): 1}), run_case)
+                if idx % 2 == 0:
+                    # ... and with the preempted thread held back while the others go on for a while
+                    coll.check(dict(base, preempt={str(p): [1, 10]}), run_case)
         coll.exhaustive[f"single preemption points of fixed scenario {job['fixed']} (stride {job['stride']})"] = job["stride"] == 1
         return
     if job["kind"] == "grid":
